@@ -365,6 +365,10 @@ def main():
         if "callback-with-two-candidate-values/" in k_ and not k_.startswith("p2/"):
             chk.count("events of a callback with two candidate values (both candidates run)", a_)
             chk.count("events in which the " + ("first" if "/first-candidate" in k_ else "second") + " of two candidate callbacks runs", a_)
+        if "call-through-parameter-of-one-of-two-targets/" in k_ and not k_.startswith("p2/"):
+            chk.count("events of a call through a parameter inside one of two targets of one call statement", a_)
+        if ("re-exported-function" in k_ or "re-exported-class" in k_) and not k_.startswith("p2/"):
+            chk.count("events of a call through a name that an intermediate module only re-exports", a_)
         if "callback-keyword-argument/" in k_ and "non-alphabetical" in k_:
             chk.count("events of a callback passed among keywords written in non-alphabetical order", a_)
     chk.extra["per_call_kind"] = {k: {"events": a, "failed": b} for k, (a, b) in sorted(kinds_ok.items())}
@@ -381,6 +385,8 @@ def main():
         chk.require("projects with entry mode method", 20 if not thorough else 400)
         chk.require("projects with entry mode unit_init", 40 if not thorough else 800)
         chk.require("loader get_callees/get_callers cross-checks", 300)
+        chk.require("events of a call through a parameter inside one of two targets of one call statement", 80 if not thorough else 1500)
+        chk.require("events of a call through a name that an intermediate module only re-exports", 12 if not thorough else 250)
         chk.require("events of a callback with two candidate values (both candidates run)", 120 if not thorough else 2000)
         chk.require("events in which the first of two candidate callbacks runs", 50 if not thorough else 900)
         chk.require("events in which the second of two candidate callbacks runs", 50 if not thorough else 900)
